@@ -127,6 +127,16 @@ Proof.
   destruct (apply_op s o); [apply IH; lia|reflexivity].
 Qed.
 
+(* a phase that ran to its end met no adversary *)
+Lemma run_phase_ok_no_adv ops : forall n flt crash s s' n',
+  run_phase ops n flt crash s = (s', EndOk, n') -> run_phase ops n None None s = (s', EndOk, n').
+Proof.
+  induction ops as [|o ops IH]; intros n flt crash s s' n'; cbn [run_phase hits]; [trivial|].
+  destruct (hits crash n) as [[d w]|]; [discriminate|].
+  destruct (hits flt n) as [[d w]|]; [discriminate|].
+  destruct (apply_op s o); [apply IH|discriminate].
+Qed.
+
 Lemma journal_name_neq (A : name) : journal_name A <> A.
 Proof.
   unfold journal_name. intros E. apply (f_equal (@length N)) in E.
@@ -283,6 +293,9 @@ Section Append.
   Lemma Forall_rollback : Forall rollback_op (rollback_ops A off).
   Proof. repeat constructor. Qed.
 
+  Lemma Forall_rollback_for s1 : Forall rollback_op (rollback_for A off s1).
+  Proof. unfold rollback_for. destruct (exists_file s1 A); repeat constructor. Qed.
+
   (* journal phase: only J changes; when it completes J holds the journal *)
   Lemma J_phase n flt crash s1 e n1 :
     run_phase jops n flt crash s = (s1, e, n1) ->
@@ -338,15 +351,17 @@ Section Append.
       unfold content. unfold exists_file in X. destruct (lookup s0 A); [discriminate|reflexivity].
   Qed.
 
-  (* rollback, not crashed: the archive is exactly the old one again *)
+  (* rollback without adversary: it completes and the archive is exactly the old one again *)
   Lemma R_phase n s0 s1 e n1 :
-    PA s0 -> run_phase (rollback_ops A off) n None None s0 = (s1, e, n1) -> SJ s1.
+    PA s0 -> run_phase (rollback_for A off s0) n None None s0 = (s1, e, n1) -> SJ s1 /\ e = EndOk.
   Proof.
-    intros P0. unfold rollback_ops. cbn [run_phase hits apply_op].
-    destruct (exists_file s0 A) eqn:X.
-    - intros R; inversion R; subst. unfold SJ. rewrite content_set_same.
+    intros P0. unfold rollback_for, rollback_ops. destruct (exists_file s0 A) eqn:X.
+    - cbn [run_phase hits apply_op]. rewrite X.
+      intros R; inversion R; subst. split; [|reflexivity]. unfold SJ. rewrite content_set_same.
       destruct P0 as [junk E]. rewrite E. unfold size. apply truncate_to_app.
-    - intros R; inversion R; subst. destruct (PA_absent _ P0 X) as [O C]. unfold SJ. congruence.
+    - cbn [run_phase hits apply_op].
+      intros R; inversion R; subst. split; [|reflexivity].
+      destruct (PA_absent _ P0 X) as [O C]. unfold SJ. congruence.
   Qed.
 
   Lemma SJ_PA s0 : SJ s0 -> PA s0.
@@ -385,56 +400,58 @@ Section Append.
     P (fst (fst (run_phase (final_ops A) n flt crash s0))).
   Proof. intros H n flt crash s0 P0. apply run_phase_inv; [constructor; [exact H|constructor]|exact P0]. Qed.
 
-  Theorem crash_recoverable flt crash s' :
-    write_record A chunks flt crash s = Crashed s' -> recoverable s'.
+  (* after the main path failed: whatever happens in the handler (a further fault, a crash, or
+     neither), the directory stays in one of the two safe kinds of state, and the handler's
+     unlink is reached only with the archive exactly restored *)
+  Lemma handler_states flt2 crash s1 n1 :
+    SJ s1 \/ SA s1 ->
+    forall s2 e2 n2, run_phase (rollback_for A off s1) n1 flt2 crash s1 = (s2, e2, n2) ->
+      (SJ s2 \/ SA s2) /\ (e2 = EndOk -> SJ s2).
   Proof.
-    unfold write_record.
+    intros M1 s2 e2 n2 RR. split.
+    - destruct M1 as [M1|M1]; [left|right].
+      + pose proof (run_phase_inv SJ (rollback_for A off s1)) as H. specialize (H ltac:(eapply Forall_impl;
+          [|exact (Forall_rollback_for s1)]; intros o T; apply pres_SJ_rollback; exact T) n1 flt2 crash s1 M1).
+        now rewrite RR in H.
+      + pose proof (run_phase_inv SA (rollback_for A off s1)) as H. specialize (H ltac:(eapply Forall_impl;
+          [|exact (Forall_rollback_for s1)]; intros o T; apply pres_SA, rollback_is_archive_op; exact T) n1 flt2 crash s1 M1).
+        now rewrite RR in H.
+    - intros ->. apply run_phase_ok_no_adv in RR.
+      assert (P1 : PA s1) by (destruct M1 as [M1|M1]; [apply SJ_PA; exact M1|apply M1]).
+      apply (R_phase _ _ _ _ _ P1 RR).
+  Qed.
+
+  (* EVERY ending of an append - completed, raised after one or two faults, crashed anywhere -
+     leaves a recoverable directory *)
+  Theorem always_recoverable flt flt2 crash :
+    recoverable (state_of (write_record2 A chunks flt flt2 crash s)).
+  Proof.
+    unfold write_record2.
     destruct (run_phase (main_ops A off chunks) 0 flt crash s) as [[s1 e1] n1] eqn:RM.
     destruct (main_phase _ _ _ _ _ RM) as [M1 M2].
     destruct e1.
-    - (* main completed; finally *)
+    - (* main completed; final unlink *)
       destruct (M2 eq_refl) as [D1 _].
       pose proof (final_pres SD (pres_SD_J (Unlink J) eq_refl) n1 flt crash s1 D1) as F.
       destruct (run_phase (final_ops A) n1 flt crash s1) as [[s2 e2] n2].
-      destruct e2; try discriminate. intros R; inversion R; subst. right; left. exact F.
-    - (* main raised; rollback, finally *)
-      destruct (run_phase (rollback_ops A off) n1 None crash s1) as [[s2 e2] n2] eqn:RR.
-      assert (M : SJ s2 \/ SA s2).
-      { destruct M1 as [M1|M1]; [left|right].
-        - pose proof (run_phase_inv SJ (rollback_ops A off)) as H. specialize (H ltac:(eapply Forall_impl;
-            [|exact Forall_rollback]; intros o T; apply pres_SJ_rollback; exact T) n1 None crash s1 M1).
-          now rewrite RR in H.
-        - pose proof (run_phase_inv SA (rollback_ops A off)) as H. specialize (H ltac:(eapply Forall_impl;
-            [|exact Forall_rollback]; intros o T; apply pres_SA, rollback_is_archive_op; exact T) n1 None crash s1 M1).
-          now rewrite RR in H. }
-      assert (C2 : e2 = EndCrash -> recoverable s2).
-      { intros _. destruct M as [M|M]; [left; exact M|apply SA_recoverable; exact M]. }
-      assert (N2 : e2 <> EndCrash -> SJ s2).
-      { intros NC.
-        assert (P1 : PA s1) by (destruct M1 as [M1|M1]; [apply SJ_PA; exact M1|apply M1]).
-        destruct crash as [[g d w]|].
-        - (* the crash plan did not fire inside the rollback: same as no crash plan *)
-          clear M C2. revert RR. unfold rollback_ops. cbn [run_phase hits apply_op].
-          destruct (Nat.eqb g n1); [intros R; inversion R; subst; contradiction|].
-          destruct (exists_file s1 A) eqn:X.
-          + destruct (Nat.eqb g (S n1)); [intros R; inversion R; subst; contradiction|].
-            destruct (Nat.eqb g (S (S n1))); [intros R; inversion R; subst; contradiction|].
-            intros R; inversion R; subst. unfold SJ. rewrite content_set_same.
-            destruct P1 as [junk E]. rewrite E. unfold size. apply truncate_to_app.
-          + intros R; inversion R; subst.
-            destruct (PA_absent _ P1 X) as [O C]. unfold SJ. congruence.
-        - eapply R_phase; [exact P1|exact RR]. }
-      destruct e2.
-      + pose proof (final_pres SJ (pres_SJ_J (Unlink J) eq_refl) n2 None crash s2 (N2 ltac:(discriminate))) as F.
-        destruct (run_phase (final_ops A) n2 None crash s2) as [[s3 e3] n3].
-        destruct e3; try discriminate. intros R; inversion R; subst. left. exact F.
-      + pose proof (final_pres SJ (pres_SJ_J (Unlink J) eq_refl) n2 None crash s2 (N2 ltac:(discriminate))) as F.
-        destruct (run_phase (final_ops A) n2 None crash s2) as [[s3 e3] n3].
-        destruct e3; try discriminate. intros R; inversion R; subst. left. exact F.
-      + intros R; inversion R; subst. apply C2. reflexivity.
+      destruct e2; cbn [state_of]; right; left; exact F.
+    - (* main raised; handler *)
+      destruct (run_phase (rollback_for A off s1) n1 flt2 crash s1) as [[s2 e2] n2] eqn:RR.
+      destruct (handler_states flt2 crash s1 n1 M1 _ _ _ RR) as [M N2].
+      assert (C2 : recoverable s2) by (destruct M as [M|M]; [left; exact M|apply SA_recoverable; exact M]).
+      destruct e2; cbn [state_of]; try exact C2.
+      pose proof (final_pres SJ (pres_SJ_J (Unlink J) eq_refl) n2 flt2 crash s2 (N2 eq_refl)) as F.
+      destruct (run_phase (final_ops A) n2 flt2 crash s2) as [[s3 e3] n3].
+      destruct e3; cbn [state_of]; left; exact F.
     - (* crashed in the main path *)
-      intros R; inversion R; subst.
-      destruct M1 as [M|M]; [left; exact M|apply SA_recoverable; exact M].
+      cbn [state_of]. destruct M1 as [M|M]; [left; exact M|apply SA_recoverable; exact M].
+  Qed.
+
+  Theorem crash_recoverable flt crash s' :
+    write_record A chunks flt crash s = Crashed s' -> recoverable s'.
+  Proof.
+    intros R. pose proof (always_recoverable flt None crash) as H.
+    unfold write_record in R. rewrite R in H. exact H.
   Qed.
 
   (* ------------------------------------- fault: every position and partial effect *)
@@ -464,7 +481,7 @@ Section Append.
       /\ content s' A = old /\ lookup s' J = None
       /\ forall g, g <> A -> g <> J -> lookup s' g = lookup s g.
   Proof.
-    intros Hk. unfold write_record.
+    intros Hk. unfold write_record, write_record2.
     pose proof (run_phase_fault_hits (main_ops A off chunks) 0 k d w s ltac:(lia)) as HE.
     destruct (run_phase (main_ops A off chunks) 0 (Some (Intr k d w)) None s) as [[s1 e1] n1] eqn:RM.
     cbn [fst snd] in HE. subst e1.
@@ -472,16 +489,17 @@ Section Append.
     assert (O1 : forall g, g <> A -> g <> J -> lookup s1 g = lookup s g).
     { intros g NA NJ. pose proof (run_phase_other _ g (main_ops_targets g NA NJ) 0 (Some (Intr k d w)) None s) as H.
       now rewrite RM in H. }
-    destruct (run_phase (rollback_ops A off) n1 None None s1) as [[s2 e2] n2] eqn:RR.
-    assert (S2 : SJ s2).
+    destruct (run_phase (rollback_for A off s1) n1 None None s1) as [[s2 e2] n2] eqn:RR.
+    assert (S2 : SJ s2 /\ e2 = EndOk).
     { eapply R_phase; [|exact RR]. destruct M1 as [M1|M1]; [apply SJ_PA; exact M1|apply M1]. }
+    destruct S2 as [S2 ->].
     assert (O2 : forall g, g <> A -> lookup s2 g = lookup s1 g).
-    { intros g NA. pose proof (run_phase_other (rollback_ops A off) g) as H.
-      specialize (H ltac:(repeat constructor; exact NA) n1 None None s1). now rewrite RR in H. }
-    pose proof (run_phase_no_crash (rollback_ops A off) n1 None s1) as NC. rewrite RR in NC. cbn in NC.
+    { intros g NA. pose proof (run_phase_other (rollback_for A off s1) g) as H.
+      specialize (H ltac:(unfold rollback_for; destruct (exists_file s1 A); repeat constructor; exact NA) n1 None None s1).
+      now rewrite RR in H. }
     destruct (final_no_adv n2 s2) as [s3 [e3 [n3 [RF [NC3 [LJ O3]]]]]].
     exists s3. split.
-    - destruct e2; try contradiction; rewrite RF; destruct e3; try contradiction; reflexivity.
+    - rewrite RF; destruct e3; try contradiction; reflexivity.
     - split; [|split; [exact LJ|]].
       + unfold SJ in S2. rewrite <- S2. apply content_lookup. apply O3. exact AJ.
       + intros g NA NJ. rewrite O3 by exact NJ. rewrite O2 by exact NA. apply O1; assumption.
@@ -493,7 +511,7 @@ Section Append.
       /\ content s' A = old ++ concat chunks /\ lookup s' J = None
       /\ forall g, g <> A -> g <> J -> lookup s' g = lookup s g.
   Proof.
-    unfold write_record.
+    unfold write_record, write_record2.
     destruct (run_phase (main_ops A off chunks) 0 None None s) as [[s1 e1] n1] eqn:RM.
     assert (E1 : e1 = EndOk).
     { revert RM. rewrite main_split, run_phase_app. unfold jops. cbn [run_phase hits apply_op].
@@ -525,7 +543,7 @@ Section Append.
       /\ lookup s' J = (if d then None else Some jb).
   Proof.
     destruct success_appends as [s0 [R0 _]].
-    unfold write_record in *.
+    unfold write_record, write_record2 in *.
     rewrite run_phase_fault_beyond by (cbn [plus]; lia).
     destruct (run_phase (main_ops A off chunks) 0 None None s) as [[s1 e1] n1] eqn:RM.
     destruct e1.
@@ -537,7 +555,7 @@ Section Append.
       + split; [|apply lookup_remove_same].
         unfold SD in D1. rewrite <- D1. apply content_lookup. apply lookup_remove_other. exact JA.
       + split; [exact D1|exact L1].
-    - exfalso. destruct (run_phase (rollback_ops A off) n1 None None s1) as [[s2 e2] n2].
+    - exfalso. destruct (run_phase (rollback_for A off s1) n1 None None s1) as [[s2 e2] n2].
       destruct e2; try discriminate;
         destruct (run_phase (final_ops A) n2 None None s2) as [[s3 e3] n3]; destruct e3; discriminate.
     - discriminate.
@@ -554,7 +572,7 @@ Section Append.
       /\ forall g, g <> A -> g <> J -> lookup s' g = lookup s g.
   Proof.
     destruct success_appends as [s0 [R0 _]].
-    unfold write_record in *.
+    unfold write_record, write_record2 in *.
     rewrite run_phase_fault_beyond by (cbn [plus]; lia).
     destruct (run_phase (main_ops A off chunks) 0 None None s) as [[s1 e1] n1] eqn:RM.
     assert (O1 : forall g, g <> A -> g <> J -> lookup s1 g = lookup s g).
@@ -570,7 +588,7 @@ Section Append.
         * unfold SD in D1. rewrite <- D1. apply content_lookup. apply lookup_remove_other. exact JA.
         * intros g NA NJ. rewrite lookup_remove_other by congruence. apply O1; assumption.
       + split; [exact D1|split; [exact L1|exact O1]].
-    - exfalso. destruct (run_phase (rollback_ops A off) n1 None None s1) as [[s2 e2] n2].
+    - exfalso. destruct (run_phase (rollback_for A off s1) n1 None None s1) as [[s2 e2] n2].
       destruct e2; try discriminate;
         destruct (run_phase (final_ops A) n2 None None s2) as [[s3 e3] n3]; destruct e3; discriminate.
     - discriminate.
@@ -581,7 +599,7 @@ Section Append.
     (length (main_ops A off chunks) < k)%nat ->
     write_record A chunks (Some (Intr k d w)) None s = write_record A chunks None None s.
   Proof.
-    intros Hk. unfold write_record.
+    intros Hk. unfold write_record, write_record2.
     rewrite run_phase_fault_beyond by (cbn [plus]; lia).
     destruct (run_phase (main_ops A off chunks) 0 None None s) as [[s1 e1] n1] eqn:RM.
     destruct e1; try reflexivity.
